@@ -1,7 +1,7 @@
 (* C03 - codon-level mutators act on exactly the in-frame codons inside the region.
    Only statements, closed by `exact`, and their assumptions. *)
 From VV Require Import Model.Base Model.Pattern Model.Seq Model.CodonTable Model.Transcript Model.Mutators
-  Spec.PatternSpec Spec.CodonSpec Proofs.CodonTableProofs Proofs.CodonProofs.
+  Spec.PatternSpec Spec.CodonSpec Proofs.CodonTableProofs Proofs.CodonProofs Generated.KernelsFrame Proofs.KernelFrameEquiv.
 
 (* the codon windows produced for a region cut by Transcript._get_cds_seq are exactly the triplets of the annotated
    reading frame (strand-aware, from the GTF frame of the exon) whose three bases lie inside the region: every frame,
@@ -80,6 +80,18 @@ Example C03_example :
   end.
 Proof. vm_compute. reflexivity. Qed.
 
+(* translation validation: the frame arithmetic of utils.py / exon.py / transcript.py, translated from the source on every run,
+   is the model's for all inputs *)
+Theorem C03_frame_arithmetic_matches_source :
+  (forall o, k_codon_offset_complement o = compl_offset o) /\
+  (forall f l, k_cds_ext_3_length f l = Ok (cds_ext_3_length f l)) /\
+  (forall e, k_exon_cds_prefix_length e = cds_prefix_length e) /\
+  (forall e, k_exon_cds_suffix_length e = cds_suffix_length e) /\
+  (forall e, k_exon_next_exon_frame e = cds_suffix_length e) /\
+  (forall s e r, k_get_range_cds_exts s e r = range_cds_exts s e r).
+Proof. exact (conj k_codon_offset_complement_eq (conj k_cds_ext_3_length_eq (conj k_exon_cds_prefix_length_eq (conj k_exon_cds_suffix_length_eq
+  (conj k_exon_next_exon_frame_eq k_get_range_cds_exts_eq))))). Qed.
+
 Print Assumptions C03_codon_windows_exact.
 Print Assumptions C03_inframe_exact.
 Print Assumptions C03_top_replacement_exact.
@@ -89,3 +101,4 @@ Print Assumptions C03_snvre_rows_exact.
 Print Assumptions C03_codon_rows_in_region.
 Print Assumptions C03_minus_strand_orientation.
 Print Assumptions C03_noncoding_refused.
+Print Assumptions C03_frame_arithmetic_matches_source.
